@@ -1,3 +1,11 @@
+"""C16 finding (found by the seed sweep of `./check C16 --tier quick`, seed 40): an acknowledgement that was overtaken on the return path
+by a later cumulative ACK (`ackno < self.last_ack`) was taken by `TCPPacketGenerator.put` for a NEW ACK (`ackno != last_ack`, `dupack == 0`)
+and `self.last_ack = ackno` moved the acknowledged mark BACKWARDS.  Consequences: the event queue runs empty with `last_ack` short of the
+flow size although the sink holds everything; the send guard `next_seq + mss <= last_ack + cwnd` closes spuriously; an application-limited
+flow (`arrival_dist`) stalls for ever with nothing outstanding; RTT estimator and cwnd are updated from a stale sample.
+Two scenarios: (1) a bulk flow of 3 segments under a window of 3 segments, ACK 1 held one second and overtaken by ACKs 2 and 3;
+(2) an application-limited flow (one segment every 5 s) whose second ACK is held 402.5 s and arrives while nothing is outstanding.
+Run with PYTHONPATH=<library tree>.  Exit 1 when the acknowledged mark moves back or a flow does not complete."""
 import sys
 from onl.sim import Environment
 from onl.packet import TCPPacketGenerator, TCPSink, TCPReno, Flow
